@@ -76,8 +76,13 @@ func Slice(der []byte) (*Sliced, error) {
 		}
 		if e.Class == 2 && e.Tag == 0 && idx == 0 && len(s.tbsHead) == 0 {
 			var v int
-			if _, err := stdasn1.Unmarshal(e.Bytes, &v); err != nil {
+			if rest, err := stdasn1.Unmarshal(e.Bytes, &v); err != nil {
 				return nil, err
+			} else if len(rest) != 0 {
+				// the wrapper's length disagrees with its content: the TLV tree of the input is not
+				// well defined, "the sub-encoding" has no reference meaning (zcrypto's encoding/asn1
+				// ignores the outer length of an EXPLICIT wrapper) - nothing is claimed
+				return nil, errors.New("inconsistent EXPLICIT version wrapper")
 			}
 			s.EncVersion = v
 			s.tbsHead = append(s.tbsHead, e.FullBytes)
@@ -85,9 +90,12 @@ func Slice(der []byte) (*Sliced, error) {
 		}
 		if e.Class == 2 && e.Tag == 3 && idx >= len(names) {
 			s.hasExts = true
-			seq, _, err := next(e.Bytes)
+			seq, rest, err := next(e.Bytes)
 			if err != nil {
 				return nil, err
+			}
+			if len(rest) != 0 {
+				return nil, errors.New("inconsistent EXPLICIT extensions wrapper")
 			}
 			eb := seq.Bytes
 			for len(eb) > 0 {
